@@ -9,6 +9,7 @@ All exceptions exposed by the Vtl engine.
 
 from typing import Any, List, Optional
 
+from vtlengine import _verif
 from vtlengine.Exceptions.messages import centralised_messages
 
 dataset_output = None
@@ -45,6 +46,7 @@ class SemanticError(VTLEngineException):
     comp_code = None
 
     def __init__(self, code: str, comp_code: Optional[str] = None, **kwargs: Any) -> None:
+        _verif.access("exceptions_dataset_output", "r", dataset_output)
         if dataset_output:
             message = (
                 centralised_messages[code]["message"].format(**kwargs)
@@ -71,6 +73,7 @@ class RunTimeError(VTLEngineException):
         **kwargs: Any,
     ) -> None:
         message = centralised_messages[code]["message"].format(**kwargs)
+        _verif.access("exceptions_dataset_output", "r", dataset_output)
         if dataset_output:
             message += self.output_message + str(dataset_output)
 
@@ -167,6 +170,7 @@ class DataLoadError(VTLEngineException):
         **kwargs: Any,
     ) -> None:
         message = centralised_messages[code]["message"].format(**kwargs)
+        _verif.access("exceptions_dataset_output", "r", dataset_output)
         if dataset_output:
             message += self.output_message + " " + str(dataset_output)
         else:
